@@ -227,6 +227,8 @@ def gen_cli(ctx):
 
 # ------------------------------------------------------------------ run
 def run(ctx):
+    import mt_corr
+    mt_corr.run(ctx)      # CPython's random module and gen_rnd_board against the Coq model of MT19937 (Model/MT.v)
     boards = gen_boards(ctx)
     checks = gen_checks(ctx)
     clis = gen_cli(ctx)
